@@ -181,6 +181,58 @@ def t_indexed_switch(E):
     E.refutable("chm.indexed_switch", present)
 
 
+@task("chm.or_with_switch_and_index_operands", props=["C17"], functions=FUNCS)
+def t_or_switch_index(E):
+    """| with a Switch operand (either side), and the LAZY Or node that a union of index-level maps builds, under lookups,
+    filter, mask and an outer switch"""
+    z3 = E.z3
+    a, b, c, d = (E.real(n) for n in "abcd")
+    k = E.int("k", conc=False)
+    E.assume(z3.And(k.t >= 0, k.t < 2))
+    sw = E.call(C_ + "ChoiceMap.switch", k, [E.call(C_ + "ChoiceMap.kw", x=a), E.call(C_ + "ChoiceMap.kw", x=b, y=c)])
+    plain = E.call(C_ + "ChoiceMap.kw", x=d)
+    is0 = SBool(k.t == 0, False)
+    is1 = SBool(k.t == 1, False)
+    left = E.method(plain, "__or__", sw)          # plain map wins wherever it has a value
+    E.prove("C17.ChoiceMap.or.left_biased_union[plain | switch]", agrees(
+        E, left, {("x",): (True, d), ("y",): (is1, c)}, ("x", "y"), depth=1))
+    right = E.method(sw, "__or__", plain)         # the active branch wins, the plain map fills in
+    E.prove("C17.ChoiceMap.or.left_biased_union[switch | plain]", agrees(
+        E, right, {("x",): (True, SReal(z3.If(k.t == 0, a.t, b.t))), ("y",): (is1, c)}, ("x", "y"), depth=1))
+    # union of index-level maps: a lazy Or node
+    i, j, q = E.int("i", conc=False), E.int("j", conc=False), E.int("q", conc=False)
+    mi = E.call(C_ + "ChoiceMap.entry", a, i, "x")
+    mj = E.call(C_ + "ChoiceMap.entry", b, j, "y")
+    u = E.method(mi, "__or__", mj)
+
+    def at(m, idx, name):
+        return obs(E, E.method(E.method(m, "get_submap", idx, name), "get_value"))
+
+    def index_agrees(m, want_x, want_y):
+        px, vx = at(m, q, "x")
+        py, vy = at(m, q, "y")
+        cl = [px == E.z(want_x), py == E.z(want_y)]
+        if vx is not None:
+            cl.append(E.Implies(E.z(want_x), E.eq(vx, a)))
+        if vy is not None:
+            cl.append(E.Implies(E.z(want_y), E.eq(vy, b)))
+        return E.And(*cl)
+    hit_x, hit_y = SBool(q.t == i.t, False), SBool(q.t == j.t, False)
+    E.prove("C17.Or.lookup.each_operand_only_at_its_own_index", index_agrees(u, hit_x, hit_y))
+    S = E.cls(C_ + "Selection")
+    selx = E.method(E.I.getattr(S, "at"), "__getitem__", ("x",))
+    E.prove("C17.Or.filter.keeps_exactly_selected_addresses_of_both_operands", index_agrees(E.method(u, "filter", selx), hit_x, False))
+    E.prove("C17.Or.filter.complement", index_agrees(E.method(u, "filter", E.method(selx, "__invert__")), False, hit_y))
+    E.prove("C17.Or.mask.false_empties_both_operands", index_agrees(E.method(u, "mask", False), False, False))
+    f = E.flag("f")
+    E.prove("C17.Or.mask.flag_gates_both_operands", index_agrees(
+        E.method(u, "mask", f), SBool(z3.And(f.t, hit_x.t), False), SBool(z3.And(f.t, hit_y.t), False)))
+    sw2 = E.call(C_ + "ChoiceMap.switch", k, [u, E.call(C_ + "ChoiceMap.empty")])
+    E.prove("C17.ChoiceMap.switch.a_lazy_or_branch_is_visible_only_when_selected", index_agrees(
+        sw2, SBool(z3.And(k.t == 0, hit_x.t), False), SBool(z3.And(k.t == 0, hit_y.t), False)))
+    E.refutable("chm.or_with_switch_and_index_operands", at(u, q, "x")[0])
+
+
 @task("chm.choice_build", props=["C35", "C17", "C23"], functions=FUNCS)
 def t_choice_build(E):
     """Choice.build: Mask(v, concrete True) == v, Mask(v, concrete False) == nothing, traced flag kept"""
